@@ -113,6 +113,15 @@ func c11Gen(r *vu.RNG, n int, emit func(string)) {
 		}
 		emit("enc sl(nm(u8)) [" + strings.Join(parts, ",") + "]")
 	}
+	{ // sequences longer than 2^16 elements / bytes
+		parts := make([]string, 65537)
+		for i := range parts {
+			parts[i] = vu.X(uint64(i & 0xff))
+		}
+		emit("enc sl(u16) [" + strings.Join(parts, ",") + "]")
+		emit("enc sl(nm(u8)) [" + strings.Join(parts[:65536], ",") + "]")
+		emit("enc bytes " + vu.Hex(bytes.Repeat([]byte{0x5a}, 65537)))
+	}
 	for _, d := range svuTable {
 		if svuParseTy(d).kind == svuSt {
 			emit("order " + d)
